@@ -18,6 +18,7 @@ package main
 // reference then is the solo run of that prefix); chunk boundaries, chunk ids and order across key sets are free.
 
 import (
+	"encoding/json"
 	"fmt"
 	"math/rand"
 	"net"
@@ -47,9 +48,26 @@ type agentRun struct {
 	procs   int
 }
 
+type agentRunJSON struct {
+	ID      int    `json:"id"`
+	Variant string `json:"variant"`
+	MsgMax  int    `json:"msg_max"`
+	NConn   int    `json:"connections"`
+	PerConn int    `json:"records_per_connection"`
+	Procs   int    `json:"gomaxprocs"`
+}
+
 func (a agentRun) MarshalJSON() ([]byte, error) {
-	return []byte(fmt.Sprintf(`{"id":%d,"variant":%q,"msg_max":%d,"connections":%d,"records_per_connection":%d,"gomaxprocs":%d}`,
-		a.id, a.variant, a.msgMax, a.nConn, a.perConn, a.procs)), nil
+	return json.Marshal(agentRunJSON{a.id, a.variant, a.msgMax, a.nConn, a.perConn, a.procs})
+}
+
+func (a *agentRun) UnmarshalJSON(b []byte) error {
+	var j agentRunJSON
+	if err := json.Unmarshal(b, &j); err != nil {
+		return err
+	}
+	*a = agentRun{id: j.ID, variant: j.Variant, msgMax: j.MsgMax, nConn: j.NConn, perConn: j.PerConn, procs: j.Procs}
+	return nil
 }
 
 func (a agentRun) args() map[string]string {
@@ -58,7 +76,7 @@ func (a agentRun) args() map[string]string {
 }
 
 func stage2Runs(c *vkit.Ctx) []agentRun {
-	n := c.N(6, 60)
+	n := c.N(6, 48)
 	var out []agentRun
 	for i := 0; i < n; i++ {
 		r := c.Rand("s2-run", i)
